@@ -384,3 +384,50 @@ Proof.
   induction l as [|a l IH]; [reflexivity|]. cbn [rfc_chain map fst snd]. rewrite IH.
   destruct l; reflexivity.
 Qed.
+
+(* consequences read off the implementation's own output *)
+Lemma Forall2_owners got ref :
+  Forall2 nsec_matches got ref ->
+  map (fun e => fst (fst e)) got = map (fun e => fst (fst e)) ref
+  /\ map (fun e => snd (fst e)) got = map (fun e => snd (fst e)) ref.
+Proof.
+  induction 1 as [|g r gs rs (H1 & H2 & _) _ [IH1 IH2]]; [split; reflexivity|].
+  cbn [map]. rewrite H1, H2, IH1, IH2. split; reflexivity.
+Qed.
+
+Lemma filter_sorted {A} (le : A -> A -> Prop) (p : A -> bool) l :
+  StronglySorted le l -> StronglySorted le (filter p l).
+Proof.
+  induction 1 as [|x r Hr IH Hx]; cbn [filter]; [constructor|].
+  destruct (p x); [|exact IH]. constructor; [exact IH|].
+  apply Forall_forall. intros y Hy. apply filter_In in Hy as [Hy _]. rewrite Forall_forall in Hx. auto.
+Qed.
+
+Theorem nsec_owners_exact origin apex relativize nodes sorted ab :
+  ci_distinct sorted ->
+  Forall (fun n => is_absolute n = ab) sorted ->
+  StronglySorted name_le sorted ->
+  is_absolute origin = true ->
+  (ab = true /\ apex = origin /\ relativize = false) \/ (ab = false /\ apex = [] /\ relativize = true) ->
+  (forall n, In n sorted ->
+     types_at nodes n <> [] /\ Forall (fun t => 1 <= t <= 65535) (types_at nodes n)) ->
+  has_type (types_at nodes apex) tSOA = true ->
+  Permutation (map fst nodes) sorted ->
+  exists calls, sign_zone_nsec origin relativize nodes = Ok calls /\
+    let owners := map (fun e => fst (fst e)) (nsec_calls calls) in
+    let nexts := map (fun e => snd (fst e)) (nsec_calls calls) in
+    (* exactly the names that are not beneath a zone cut, each once, in canonical order *)
+    owners = rfc_secure apex nodes sorted /\ NoDup owners /\ StronglySorted name_le owners /\
+    (forall n, In n owners <-> In n sorted /\ rfc_occluded apex nodes sorted n = false) /\
+    (* next = the following owner; the last one wraps to the origin *)
+    nexts = match owners with [] => [] | _ :: r => r ++ [origin] end.
+Proof.
+  intros Hd Ha Hs Ho Hf Ht Hsoa Hp.
+  destruct (sign_zone_nsec_eq_rfc origin apex relativize nodes sorted ab Hd Ha Hs Ho Hf Ht Hsoa Hp)
+    as (calls & E & _ & F2).
+  exists calls. split; [exact E|]. cbv zeta.
+  destruct (Forall2_owners _ _ F2) as [Eo En]. rewrite Eo, En, rfc_chain_owners, rfc_chain_next.
+  unfold rfc_secure. split; [reflexivity|]. split; [apply NoDup_filter; apply Hd|].
+  split; [now apply filter_sorted|]. split; [|reflexivity].
+  intros n. rewrite filter_In, negb_true_iff. tauto.
+Qed.
